@@ -1,18 +1,29 @@
-import PolyVerif.Lemmas.Digest
+import PolyVerif.Lemmas.DigestCirc
 /-
 Property C10 — Type IIS digestion follows enzyme geometry, independent of the stored origin.
 
-Model: `Digest.cutWithEnzyme` (Model/Digest.lean).  Spec: `DigestSpec.digest` on the cyclic
-word, `DigestSpec.digestLin` on a linear word (Spec/Digest.lean).  `Driver.C10.enzymeOf name g`
-is the `clone.Enzyme` value for a geometry `g` (site, reverse-complement site, skip, overhang).
+Model: `Digest.cutWithEnzyme` (Model/Digest.lean: doubling, literal-site scan, overhang records,
+end trimming, modulo reduction + duplicate dropping, stable sort, wrap-around overhang, pairing
+loop with its `> len` break, slicing with Go bounds).
+Spec: `DigestSpec.digest` on the cyclic word / `DigestSpec.digestLin` on a linear word
+(Spec/Digest.lean).  `Driver.C10.enzymeOf name g` is the `clone.Enzyme` value for a geometry `g`
+(site, reverse-complement site as literal regular expressions, skip, overhang length).
+`wfLayout g s` is the property's quantifier: non-palindromic upper-case ACGT site that fits the
+plasmid, overhang ≥ 1, site occurrences (either orientation) do not overlap one another around
+the circle, paired cuts at least two overhang lengths apart.
 -/
 namespace PolyVerif.Props.C10
 open PolyVerif PolyVerif.Transform PolyVerif.Digest PolyVerif.DigestSpec PolyVerif.Driver.C10
 
-/-- the fragments of an outcome as (forward overhang, interior, reverse overhang) -/
+/-- a fragment as (forward overhang, interior, reverse overhang) -/
+def tr (f : Fragment) : Str × Str × Str := (f.fwd, f.seq, f.rev)
+
+/-- the fragments of an outcome as triples -/
 def triples : Outcome (List Fragment) → Option (List (Str × Str × Str))
-  | .ok fs => some (fs.map fun f => (f.fwd, f.seq, f.rev))
+  | .ok fs => some (fs.map tr)
   | _ => none
+
+/-! ### the enzyme table -/
 
 /-- The built-in enzyme table of the code is the REBASE geometry: looking a name up in
 `getBaseRestrictionEnzymes` gives exactly the `Enzyme` built from the pinned geometry
@@ -22,13 +33,130 @@ theorem builtin_pinned : ∀ ng ∈ builtin, baseEnzymes.lookup ng.1 = some (enz
 /-- the built-in geometries are well-formed (non-palindromic upper-case ACGT site, overhang ≥ 1) -/
 theorem builtin_wf : ∀ ng ∈ builtin, wfGeometry ng.2 = true := by decide
 
-/-- **Letter case is irrelevant**: two stored sequences with the same upper-case reading are
-digested identically (any topology, directional or not, any enzyme). -/
+/-- CutWithEnzymeByName is CutWithEnzyme with the pinned geometry. -/
+theorem byName_eq : ∀ ng ∈ builtin, ∀ (s : Str) (c d : Bool),
+    cutWithEnzymeByName s c d ng.1 = cutWithEnzyme s c d (enzymeOf ng.1 ng.2) := by
+  intro ng h s c d
+  simp only [cutWithEnzymeByName, builtin_pinned ng h]
+
+/-! ### the spec does not depend on the origin -/
+
+/-- **spec_rotation**: the cyclic-word digestion yields the same multiset of fragments whichever
+letter the circle is read from (equivariance of cyclic site search, cuts and distances). -/
+theorem spec_rotation (g : Geometry) (k : Nat) (s : Str) : (digest g (Spec.rotl k s)).Perm (digest g s) :=
+  digest_rotl g k s
+
+/-- the quantifier does not depend on the origin -/
+theorem wf_rotation (g : Geometry) (k : Nat) (s : Str) (h : wfLayout g s = true) :
+    wfLayout g (Spec.rotl k s) = true := wfLayout_rotl g k s h
+
+/-! ### circular parts -/
+
+/-- **cut_circular**: on every layout of the quantifier, directional digestion of the circular part
+succeeds (no slice is out of range) and returns exactly the multiset of fragments of the cyclic-word
+spec: the stretches from the cut of a forward-pointing site to the next cut when that one belongs to
+a backward-pointing site, each as (first `oh` letters, interior, last `oh` letters). -/
+theorem cut_circular (name : String) (g : Geometry) (s : Str) (h : wfLayout g s = true) :
+    ∃ fr, cutWithEnzyme s true true (enzymeOf name g) = .ok fr ∧ (fr.map tr).Perm (digest g s) := by
+  have hwf : WF g (letter (upper s)) (upper s).length := wf_of_wfLayoutW h
+  obtain ⟨fr, h1, h2⟩ := cutCore_circular name g (upper s) hwf
+  refine ⟨fr, ?_, h2⟩
+  simp only [cutWithEnzyme, sequenceOf, if_true, upper_append]
+  rw [← upper_length s]
+  exact h1
+
+/-- **Rotation independence of the code**: whichever base the stored circular sequence starts at,
+the multiset of fragments is the same. -/
+theorem cut_rotation_independent (name : String) (g : Geometry) (s : Str) (k : Nat) (h : wfLayout g s = true) :
+    ∃ fr fr', cutWithEnzyme (Spec.rotl k s) true true (enzymeOf name g) = .ok fr ∧
+      cutWithEnzyme s true true (enzymeOf name g) = .ok fr' ∧ (fr.map tr).Perm (fr'.map tr) := by
+  obtain ⟨fr, h1, h2⟩ := cut_circular name g (Spec.rotl k s) (wf_rotation g k s h)
+  obtain ⟨fr', h1', h2'⟩ := cut_circular name g s h
+  exact ⟨fr, fr', h1, h1', (h2.trans (spec_rotation g k s)).trans h2'.symm⟩
+
+/-- **cut_geometry**: every fragment returned for a circular part of the quantifier sits at the
+offsets the enzyme geometry dictates.  There are a forward site at `p` and a backward-pointing site
+(reverse complement read at `q`) such that, on the upper-cased cyclic word,
+* the forward overhang is the `oh` letters starting `skip` letters after the site's end (`p + |site| + skip`),
+* the reverse overhang is the `oh` letters ending `skip` letters before the reverse site's start
+  (they start at `q - skip - oh`),
+* overhang ++ interior ++ overhang is the whole stretch between the two cuts, `d ≥ 2·oh` letters,
+* and no other cut of the layout lies in that stretch (no reverse cut is nearer, every other forward
+  cut is further away). -/
+theorem cut_geometry (name : String) (g : Geometry) (s : Str) (h : wfLayout g s = true)
+    (fr : List Fragment) (hfr : cutWithEnzyme s true true (enzymeOf name g) = .ok fr) :
+    let w := letter (upper s)
+    let n := s.length
+    ∀ f ∈ fr, ∃ p ∈ sites w n g.site, ∃ q ∈ sites w n (rcSite g.site), ∃ d,
+      d = dist n (fwdCut g n p) (revCut g n q) ∧ 2 * g.oh ≤ d ∧
+      (∀ r ∈ revCuts g w n, d ≤ dist n (fwdCut g n p) r) ∧
+      (∀ c' ∈ fwdCuts g w n, c' ≠ fwdCut g n p → d < dist n (fwdCut g n p) c') ∧
+      f.fwd = window w (p + g.site.length + g.skip) g.oh ∧
+      f.rev = window w (wrap n ((q : Int) - g.skip - g.oh)) g.oh ∧
+      f.fwd ++ f.seq ++ f.rev = window w (p + g.site.length + g.skip) d := by
+  intro w n f hf
+  obtain ⟨fr', h1, h2⟩ := cut_circular name g s h
+  rw [hfr] at h1
+  have hfr' : fr = fr' := by simpa using h1
+  subst hfr'
+  have hwf : WF g (letter (upper s)) (upper s).length := wf_of_wfLayoutW h
+  have hmem : tr f ∈ digestW g (letter (upper s)) (upper s).length := by
+    have : tr f ∈ fr.map tr := List.mem_map.2 ⟨f, hf, rfl⟩
+    exact h2.mem_iff.1 this
+  have := digestW_geometry g (letter_periodic (upper s)) hwf.n_pos hwf.paired hmem
+  rw [upper_length] at this
+  exact this
+
+/-! ### linear parts -/
+
+/-- **cut_linear_inside**: a linear part never yields a fragment needing bases beyond its ends —
+whenever the call returns (any enzyme, directional or not), forward overhang ++ interior ++ reverse
+overhang of every fragment is a contiguous piece of the (upper-cased) sequence. -/
+theorem cut_linear_inside (s : Str) (directional : Bool) (e : Enzyme) (fr : List Fragment)
+    (h : cutWithEnzyme s false directional e = .ok fr) :
+    ∀ f ∈ fr, ∃ a b, upper s = a ++ (f.fwd ++ f.seq ++ f.rev) ++ b := by
+  intro f hf
+  have := cutCore_linear_inside (sequenceOf s false) s.length directional e fr h f hf
+  simp only [sequenceOf, Bool.false_eq_true, if_false] at this
+  obtain ⟨a, b, hab⟩ := this
+  exact ⟨a, b, hab.symm⟩
+
+/-! ### letter case -/
+
+/-- **cut_case**: letter case is irrelevant — two stored sequences with the same upper-case reading
+are digested identically (any topology, directional or not, any enzyme). -/
 theorem cut_case {s t : Str} (h : upper s = upper t) (circular directional : Bool) (e : Enzyme) :
     cutWithEnzyme s circular directional e = cutWithEnzyme t circular directional e :=
   cutWithEnzyme_case h circular directional e
 
+/-! ### the judge reads the spec through an array -/
+
+/-- The compiled judge evaluates the spec through the array-backed reading function `letterA`;
+that is the spec's own reading function, so the judged quantities are `digestU` / `wfLayoutU`
+(and their linear counterparts). -/
+theorem judge_reading (g : Geometry) (u : Str) :
+    digestW g (letterA u.toArray) u.toArray.size = digestU g u ∧
+    wfLayoutW g (letterA u.toArray) u.toArray.size = wfLayoutU g u ∧
+    digestLinW g (letterA u.toArray) u.toArray.size = digestLinU g u ∧
+    wfLinearW g (letterA u.toArray) u.toArray.size = wfLinearW g (letter u) u.length := by
+  simp [letterA_eq, digestU, wfLayoutU, digestLinU]
+
+/-! ### non-vacuity and regressions (kernel-evaluated examples) -/
+
 example : upper "ggTCtc".toList = upper "GGtctC".toList := by decide
+
+/-- a 45-base BsaI plasmid inside the quantifier; the code returns the one fragment, and so it does
+when the stored origin lies inside the forward site (rotation 5: the site straddles the origin) -/
+def demo : Str := "TTGGTCTCACCCCACGTTGCAATGGGGTGAGACCAATAAAAAAAAA".toList
+
+example : wfLayout (ofRebase "GGTCTC" 1 5) demo = true := by decide
+example : digest (ofRebase "GGTCTC" 1 5) demo = [("CCCC".toList, "ACGTTGCAAT".toList, "GGGG".toList)] := by decide
+example : triples (cutWithEnzyme demo true true (enzymeOf "BsaI" (ofRebase "GGTCTC" 1 5))) =
+    some [("CCCC".toList, "ACGTTGCAAT".toList, "GGGG".toList)] := by decide
+example : triples (cutWithEnzyme (Spec.rotl 5 demo) true true (enzymeOf "BsaI" (ofRebase "GGTCTC" 1 5))) =
+    some [("CCCC".toList, "ACGTTGCAAT".toList, "GGGG".toList)] := by decide
+example : triples (cutWithEnzyme demo false true (enzymeOf "BsaI" (ofRebase "GGTCTC" 1 5))) =
+    some [("CCCC".toList, "ACGTTGCAAT".toList, "GGGG".toList)] := by decide
 
 /-- Regression (former finding `C10-linear-end-reverse-site`, repaired in /repo by 2839bce): on the
 LINEAR part `AAGGACAAAAATTTTTGTCC` with site GGAC, skip 0, overhang 5 — a backward-pointing site in
